@@ -208,6 +208,8 @@ struct Engine {
 		if (!jitLight) { jitLight = new randomx::JitCompilerRV64(); checkScalar(jitLight); }
 		if (jitLightKey != key) { jitLight->generateSuperscalarHash(c->programs, c->reciprocalCache); jitLightKey = key; }
 	}
+	// brand-new compiler objects (nothing left over from earlier programs), as a VM gets when it is created
+	void resetJit() { delete jit; jit = nullptr; delete jitLight; jitLight = nullptr; jitLightKey.clear(); lastJit = nullptr; }
 	static void checkScalar(randomx::JitCompilerRV64* j) {
 		if (j->vectorCode != nullptr || j->getProgramFunc() != (randomx::ProgramFunc*)j->entryProgram || (void*)j->getDatasetInitFunc() != j->entryDataInit) {
 			fprintf(stderr, "c20: the JIT object selected the vector path; framework error\n"); _exit(2);
